@@ -75,7 +75,7 @@ Proof.
 Qed.
 
 (* the completed theory of a program of the task, with the empty definitions of the missing output
-   predicates (what the loop runs over) *)
+   predicates that occur in the task (what the loop runs over) *)
 Definition completed_of (t : ext_task) (p : program) : theory :=
   match TauStar.tau_star p with
   | None => []
@@ -83,7 +83,8 @@ Definition completed_of (t : ext_task) (p : program) : theory :=
       match completion (rp_theory (ph_of_fconsts (ug_placeholders (et_user_guide t))) g)
                        (ug_input_predicates (et_user_guide t)) with
       | None => []
-      | Some th => th ++ missing_output_definitions (ug_output_predicates (et_user_guide t)) th
+      | Some th => th ++ missing_output_definitions (ug_output_predicates (et_user_guide t))
+                                                    (task_occurring_predicates t) th
       end
   end.
 Lemma translate_status_terminates m t p :
